@@ -5,6 +5,7 @@ import Evenio.Proofs.SparseMap
 import Evenio.Proofs.SlotMap
 import Evenio.Proofs.HandlerList
 import Evenio.Proofs.AccessSem
+import Evenio.Proofs.Slab
 /-! Helpers for C08 / C15: the listener filter as a conjunction, the pure core of `Arch.registerHandler`, the pure
     core of `removeHandler`, slab lookups, the shape of `deliverOne`. Core Lean only. -/
 namespace Evenio
@@ -96,23 +97,10 @@ theorem registerHandler_run (a : Arch) (h : HInfo) (w : World) :
 namespace Slab
 variable {α : Type}
 
-theorem mem_toList_iff (s : Slab α) (i : Nat) (a : α) : (i, a) ∈ s.toList ↔ s.get i = some a := by
-  unfold toList get
-  simp only [List.mem_filterMap, List.mem_zipIdx_iff_getElem?, Prod.exists]
-  constructor
-  · rintro ⟨e, j, he, hf⟩
-    cases e with
-    | vacant n => simp at hf
-    | occ b => simp only [Option.some.injEq, Prod.mk.injEq] at hf; obtain ⟨rfl, rfl⟩ := hf; simp [he]
-  · intro h
-    cases he : s.entries[i]? with
-    | none => simp [he] at h
-    | some e =>
-      cases e with
-      | vacant n => simp [he] at h
-      | occ b => simp only [he, Option.some.injEq] at h; subst h; exact ⟨_, _, he, rfl⟩
+-- `Slab.mem_toList_iff` and `Slab.toList_keys_nodup` come from `Evenio.Proofs.Slab` (same statements; the copies that
+-- used to live here were deleted when the proof modules were merged into one environment)
 
-theorem get_set (s : Slab α) (i j : Nat) (a : α) :
+theorem get_set_listeners (s : Slab α) (i j : Nat) (a : α) :
     (s.set i a).get j = if j = i ∧ (s.get i).isSome then some a else s.get j := by
   unfold set get
   cases he : s.entries[i]? with
@@ -131,32 +119,6 @@ theorem get_set (s : Slab α) (i j : Nat) (a : α) :
         simp [this]
       · have : ¬ i = j := fun h => hji h.symm
         simp [hji, this]
-
-private def occ? : SlabEntry α × Nat → Option (Nat × α) :=
-  fun (e, i) => match e with | .occ a => some (i, a) | .vacant _ => none
-
-private theorem keys_aux (l : List (SlabEntry α)) (n : Nat) :
-    (∀ x ∈ ((l.zipIdx n).filterMap occ?).map (·.1), n ≤ x) ∧ (((l.zipIdx n).filterMap occ?).map (·.1)).Nodup := by
-  induction l generalizing n with
-  | nil => simp
-  | cons e l ih =>
-    obtain ⟨h1, h2⟩ := ih (n + 1)
-    rw [List.zipIdx_cons]
-    cases e with
-    | vacant m =>
-      simp only [List.filterMap_cons, occ?]
-      exact ⟨fun x hx => Nat.le_of_succ_le (h1 x hx), h2⟩
-    | occ a =>
-      simp only [List.filterMap_cons, occ?, List.map_cons, List.mem_cons, List.nodup_cons]
-      refine ⟨?_, ?_, h2⟩
-      · rintro x (rfl | hx)
-        · exact Nat.le_refl _
-        · exact Nat.le_of_succ_le (h1 x hx)
-      · intro hn
-        have := h1 n hn
-        omega
-
-theorem toList_keys_nodup (s : Slab α) : (s.toList.map (·.1)).Nodup := (keys_aux s.entries 0).2
 
 /-- rewriting every occupied entry through its own index: the result, entry by entry -/
 theorem get_foldl_set (g : Nat × α → α) (l : List (Nat × α)) (s : Slab α)
@@ -179,15 +141,15 @@ theorem get_foldl_set (g : Nat × α → α) (l : List (Nat × α)) (s : Slab α
           simp only [beq_iff_eq] at hqj
           exact hnd.1 (List.mem_map.2 ⟨q, hq, hqj⟩)
         have := hget p (List.mem_cons_self)
-        simp [hnone, get_set, this]
+        simp [hnone, get_set_listeners, this]
       · have hj' : ¬ j = p.1 := fun h => hj h.symm
         have hb : (p.1 == j) = false := by simp [hj]
         rw [hb]
         cases l.find? (·.1 == j) with
         | some q => rfl
-        | none => simp [get_set, hj']
+        | none => simp [get_set_listeners, hj']
     · intro q hq
-      rw [get_set]
+      rw [get_set_listeners]
       split
       · rfl
       · exact hget q (List.mem_cons_of_mem _ hq)
